@@ -134,8 +134,19 @@ def full_tensors(task):
 
 
 def full_grad(task, i, t):
+    """Gradient of the full (unsharded) parameter i at step t.  task["zero_rows"]: on some steps a leading or trailing range of dim-0
+    rows is exactly zero (embedding rows that were not used, frozen slices): the local gradient of some shard rank is then PRESENT
+    but all-zero - which is not an absent gradient."""
     gen = torch.Generator().manual_seed(hash((task["draw"]["seed"], i, t)) % (2 ** 31))
-    return torch.randn(tuple(task["shapes"][i]), generator=gen, dtype=torch.float64).to(torch.float32)
+    g = torch.randn(tuple(task["shapes"][i]), generator=gen, dtype=torch.float64).to(torch.float32)
+    if task.get("zero_rows") and g.dim() >= 1 and g.shape[0] > 1:
+        sel = hash((task["draw"]["seed"], "z", i, t)) % 4
+        h = max(1, (g.shape[0] * (1 + hash((task["draw"]["seed"], "h", i, t)) % 3)) // 4)
+        if sel == 0:
+            g[:h] = 0.0
+        elif sel == 1:
+            g[h:] = 0.0
+    return g
 
 
 def serial_on_pieces(task, k, comm="fp32", comm_params=False):
@@ -195,8 +206,12 @@ def fsdp_rank_fn(task, hsdp=False):
                                                start_idx=s, end_idx=e, sharding_strategy=ShardingStrategy.FULL_SHARD)
         meta = {params[i]: meta_of[i] for i in task.get("meta_order", range(len(params)))}     # a mapping: its order carries no meaning
         if hsdp:
-            from torch.distributed.device_mesh import init_device_mesh
-            mesh = init_device_mesh("cpu", (task["R"], S), mesh_dim_names=("replicate", "shard"))
+            from torch.distributed.device_mesh import DeviceMesh, init_device_mesh
+            if task.get("mesh_rows"):          # replicate dimension not in ascending rank order
+                mesh = DeviceMesh("cpu", torch.tensor([[r * S + c for c in range(S)] for r in task["mesh_rows"]]),
+                                  mesh_dim_names=("replicate", "shard"))
+            else:
+                mesh = init_device_mesh("cpu", (task["R"], S), mesh_dim_names=("replicate", "shard"))
             cfg = HSDPShampooConfig(param_to_metadata=meta, device_mesh=mesh,
                                     communication_dtype=getattr(CommunicationDType, COMM[task["comm"]][1]),
                                     num_trainers_per_group=task["GS"], communicate_params=task["comm_params"])
@@ -260,7 +275,13 @@ def dtensor_rank_fn(task, hybrid=False):
         S = task["S"]
         fulls = full_tensors(task)
         if hybrid:
-            mesh = init_device_mesh("cpu", (task["R"], S), mesh_dim_names=("replicate", "shard"))
+            if task.get("mesh_rows"):
+                # a hand-built mesh whose replicate dimension is not in increasing rank order (rows of the R x S grid permuted)
+                from torch.distributed.device_mesh import DeviceMesh
+                grid = torch.tensor([[r * S + c for c in range(S)] for r in task["mesh_rows"]])
+                mesh = DeviceMesh("cpu", grid, mesh_dim_names=("replicate", "shard"))
+            else:
+                mesh = init_device_mesh("cpu", (task["R"], S), mesh_dim_names=("replicate", "shard"))
             place = [Replicate(), Shard(0)]
             cfg = HybridShardShampooConfig(device_mesh=mesh, communication_dtype=getattr(CommunicationDType, COMM[task["comm"]][1]),
                                            num_trainers_per_group=task["GS"], communicate_params=task["comm_params"])
